@@ -138,7 +138,10 @@ static void op_gm(int argc, char **argv) {
 		static ep_t tab[RLC_EP_TABLE_MAX];
 		ep_tok(p, argv[2]);
 		RLC_TRY {
-			if (!strcmp(v, "mul")) g1_mul(c, p, k);
+			if (!strcmp(v, "mul!")) { ep_copy(c, p); g1_mul(c, c, k); }
+			else if (!strcmp(v, "sec!")) { ep_copy(c, p); g1_mul_sec(c, c, k); }
+			else if (!strcmp(v, "dig!")) { ep_copy(c, p); g1_mul_dig(c, c, k->dp[0]); }
+			else if (!strcmp(v, "mul")) g1_mul(c, p, k);
 			else if (!strcmp(v, "sec")) g1_mul_sec(c, p, k);
 			else if (!strcmp(v, "any")) g1_mul_any(c, p, k);
 			else if (!strcmp(v, "gen")) g1_mul_gen(c, k);
@@ -152,7 +155,10 @@ static void op_gm(int argc, char **argv) {
 		static ep2_t tab[RLC_EP_TABLE_MAX];
 		ep2_tok(p, argv[2]);
 		RLC_TRY {
-			if (!strcmp(v, "mul")) g2_mul(c, p, k);
+			if (!strcmp(v, "mul!")) { ep2_copy(c, p); g2_mul(c, c, k); }
+			else if (!strcmp(v, "sec!")) { ep2_copy(c, p); g2_mul_sec(c, c, k); }
+			else if (!strcmp(v, "dig!")) { ep2_copy(c, p); g2_mul_dig(c, c, k->dp[0]); }
+			else if (!strcmp(v, "mul")) g2_mul(c, p, k);
 			else if (!strcmp(v, "sec")) g2_mul_sec(c, p, k);
 			else if (!strcmp(v, "any")) g2_mul_any(c, p, k);
 			else if (!strcmp(v, "gen")) g2_mul_gen(c, k);
@@ -194,7 +200,11 @@ static void op_gte(int argc, char **argv) {
 	if (!fp12_tok(a, argv[2])) { fprintf(OUT, "bad-args\n"); return; }
 	raw_parse(&r, argv[3]); raw_to_bn(k, &r);
 	RLC_TRY {
-		if (!strcmp(v, "exp")) gt_exp(c, a, k);
+		/* "exp!", "sec!", "dig!": the result is written over the base */
+		if (!strcmp(v, "exp!")) { fp12_copy(c, a); gt_exp(c, c, k); }
+		else if (!strcmp(v, "sec!")) { fp12_copy(c, a); gt_exp_sec(c, c, k); }
+		else if (!strcmp(v, "dig!")) { fp12_copy(c, a); gt_exp_dig(c, c, k->dp[0]); }
+		else if (!strcmp(v, "exp")) gt_exp(c, a, k);
 		else if (!strcmp(v, "sec")) gt_exp_sec(c, a, k);
 		else if (!strcmp(v, "dig")) gt_exp_dig(c, a, k->dp[0]);
 		else if (!strcmp(v, "gen")) gt_exp_gen(c, k);
